@@ -11,6 +11,7 @@ from harness.common import z, zopt, coq_list, InfraError
 
 ID = 'C17'
 PROPS_FILE = 'Props/Props_C17.v'
+EXTRA_TARGETS = ['Cal/CalFloat.vo']
 DAY = 86400_000_000
 BASE = 19723 * DAY          # 2024-01-01, a Monday
 
